@@ -64,6 +64,9 @@ func Main(args []string) int {
 		for _, a := range r.Asserts {
 			fmt.Println(" ", a)
 		}
+		for _, o := range r.Obs {
+			fmt.Println("  obs:", o)
+		}
 		return 0
 	case "list":
 		P, err := Load(envOr("VERIF_REPO", "/repo"), envOr("VERIF_HARNESS", "/verif/harness"))
